@@ -123,7 +123,8 @@ class ConsumerPowerFormula(FormulaGenerator[Power]):
             if idx > 0:
                 builder.push_oper("+")
             builder.push_component_metric(
-                grid_meter.component_id, nones_are_zeros=False
+                grid_meter.component_id,
+                nones_are_zeros=grid_meter.category != ComponentCategory.METER,
             )
 
         if self._config.allow_fallback:
@@ -206,34 +207,12 @@ class ConsumerPowerFormula(FormulaGenerator[Power]):
             )
             return builder.build()
 
-        if self._config.allow_fallback:
-            fallbacks = self._get_fallback_formulas(consumer_components)
-
-            for idx, (primary_component, fallback_formula) in enumerate(
-                fallbacks.items()
-            ):
-                if idx > 0:
-                    builder.push_oper("+")
-
-                # should only be the case if the component is not a meter
-                builder.push_component_metric(
-                    primary_component.component_id,
-                    nones_are_zeros=(
-                        primary_component.category != ComponentCategory.METER
-                    ),
-                    fallback=fallback_formula,
-                )
-        else:
-            for idx, component in enumerate(consumer_components):
-                if idx > 0:
-                    builder.push_oper("+")
-
-                builder.push_component_metric(
-                    component.component_id,
-                    nones_are_zeros=component.category != ComponentCategory.METER,
-                )
-
-        return builder.build()
+        # The consumer components found are meters (or inverters) that are not
+        # dedicated to a battery, CHP, PV or EV charger chain.  Such a meter can still
+        # have non-consumer components below it, and their power is part of the
+        # meter's reading, so they are subtracted exactly as it is done for grid
+        # meters.
+        return self._gen_with_grid_meter(builder, consumer_components)
 
     def _get_fallback_formulas(
         self, components: set[Component]
